@@ -1389,6 +1389,42 @@ pub fn check(scn: &ServerScn, log: &[Ev], sim: &Sim, node: u8) -> Vec<Violation>
         }
     }
 
+    // ---- C04: a cancellation delivered to the transport has to be read. The channel reads until
+    // the transport is exhausted in every poll and the transport wakes it on delivery, so at a
+    // quiescent point (sink ready, channel alive, nothing failed) nothing may be left unread.
+    {
+        let pushes: Vec<(u64, bool, u64)> = log
+            .iter()
+            .filter_map(|e| match &e.kind {
+                EvKind::PeerPush { link: l, item } if *l == 0 => Some((e.seq, matches!(item, Item::Cancel { .. }), match item { Item::Cancel { id, .. } | Item::Req { id, .. } => *id, _ => 0 })),
+                _ => None,
+            })
+            .collect();
+        let takes: Vec<u64> = log
+            .iter()
+            .filter_map(|e| match &e.kind {
+                EvKind::TOp { link: l, op: Op::Next, res: Res::Ok, item: Some(_) } if *l == 0 => Some(e.seq),
+                _ => None,
+            })
+            .collect();
+        for (iseq, _) in &m.idles {
+            if over.map(|o| o < *iseq).unwrap_or(false) || first_fail.map(|f| f.0 < *iseq).unwrap_or(false) || killed.map(|k| k < *iseq).unwrap_or(false) || stalled_at(*iseq) {
+                continue;
+            }
+            let pushed = pushes.iter().filter(|p| p.0 < *iseq).count();
+            let taken = takes.iter().filter(|t| **t < *iseq).count();
+            if pushed > taken {
+                if let Some((pseq, true, id)) = pushes.get(taken) {
+                    let running = m.incs.iter().any(|i| i.id == *id && i.yielded.map(|y| y < *iseq).unwrap_or(false) && m.definitely(i, *iseq));
+                    if running {
+                        v.push(viol("C04", "cancel-unread", &[], format!("the cancel for id {id} was delivered to the transport at seq {pseq} and is still unread at idle seq {iseq} (sink ready, channel alive): its handler keeps running")));
+                        break;
+                    }
+                }
+            }
+        }
+    }
+
     // ---- C11 / C04.still-counted: reported count against the interval model
     // After a failure only the first sample (taken at the end of the failing poll) is still
     // compared, and only if what failed was the write of a response: the request it answered has
